@@ -428,8 +428,27 @@ constexpr MagRepresentationOrError<T> root(T x, std::uintmax_t n) {
     return {MagRepresentationOutcome::OK, static_cast<T>(lo_diff < hi_diff ? lo : hi)};
 }
 
+// Whether an integral base fits in the (integral) type we are about to compute in.  A prime at or
+// above 2^63 (which we store as `std::uintmax_t`) would turn negative when cast to `std::intmax_t`.
+template <typename W,
+          typename B,
+          bool BothIntegral = (std::is_integral<W>::value && std::is_integral<B>::value)>
+struct BaseFitsIn {
+    static constexpr bool value(B) { return true; }
+};
+template <typename W, typename B>
+struct BaseFitsIn<W, B, true> {
+    static constexpr bool value(B base) {
+        return stdx::cmp_less_equal(base, std::numeric_limits<W>::max());
+    }
+};
+
 template <typename T, std::intmax_t N, std::uintmax_t D, typename B>
 constexpr MagRepresentationOrError<Widen<T>> base_power_value(B base) {
+    if (!BaseFitsIn<Widen<T>, B>::value(base)) {
+        return {MagRepresentationOutcome::ERR_CANNOT_FIT};
+    }
+
     if (N < 0) {
         const auto inverse_result = base_power_value<T, -N, D>(base);
         if (inverse_result.outcome != MagRepresentationOutcome::OK) {
